@@ -36,10 +36,12 @@ type bcStep struct {
 }
 
 type bcCase struct {
-	ID    int      `json:"id"`
-	Max   int      `json:"max"`
-	Src   string   `json:"src"`
-	Steps []bcStep `json:"steps"`
+	ID  int    `json:"id"`
+	Max int    `json:"max"`
+	Src string `json:"src"`
+	// Impatient: before going on, wait only for the first of the returns the model expects
+	Impatient bool     `json:"impatient"`
+	Steps     []bcStep `json:"steps"`
 }
 
 // ---------------------------------------------------------------- per-case recorder
@@ -418,6 +420,7 @@ func bcRunCase(c *bcCase, hang time.Duration, st *bcStats) ([]bcEvent, error) {
 	why := ""
 	stepNo := 0
 	wantWrites, wantRets, wantClosed, pending, slow := 0, 0, false, false, false
+	flushedRets := 0
 	flush := func() {
 		if !pending {
 			return
@@ -431,8 +434,13 @@ func bcRunCase(c *bcCase, hang time.Duration, st *bcStats) ([]bcEvent, error) {
 		if diverged {
 			to = 3 * time.Millisecond
 		}
+		needRets := wantRets
+		if c.Impatient && needRets > flushedRets+1 {
+			needRets = flushedRets + 1
+		}
+		flushedRets = wantRets
 		ok := rec.waitFor(func() bool {
-			return srv.nrecv >= wantWrites && nret >= wantRets && (!wantClosed || closeReturned)
+			return srv.nrecv >= wantWrites && nret >= needRets && (!wantClosed || closeReturned)
 		}, to)
 		if !ok && !diverged {
 			diverged = true
